@@ -97,6 +97,10 @@ def run(rep, repo, tier):
                 constructed.add(n.func.id)
     long_lived = set(repo.classes) - constructed
     check_resets(rep, repo, E, solve, sreach, long_lived)
+    # what one solve records on the long-lived model must not be what the NEXT solve finds there: the time limit is written on
+    # every path of solve() (a guarded store keeps the limit of an earlier solve, and get_results then reports its Timeout)
+    from .c14 import check_limit_plumbing
+    check_limit_plumbing(rep, repo, 'C18.R2')
     check_options_readonly(rep, repo, E, solve, getters, len(sevs), 'C18.R3')
     from ..defined import check_defined
     check_defined(rep, repo, 'C18.R4', getters + [solve], 'getters and solve')
@@ -330,7 +334,9 @@ def check_resets(rep, repo, E, solve, sreach, long_lived):
             if root != 'self':
                 continue
             acc = ev.kind in ('attr-acc', 'item-acc') or (ev.kind == 'method' and ev.attr in ACCUMULATORS)
-            if not acc:
+            # taking things OUT of (or reordering) a container that outlives the solve is the same hazard as adding to it
+            destr = (ev.kind == 'method' and ev.attr in ('pop', 'remove', 'clear', 'sort', 'reverse', 'popitem', 'discard', 'popleft')) or (ev.kind == 'del' and '[]' in names)
+            if not (acc or destr):
                 continue
             # which object / attribute accumulates
             if ev.kind == 'attr-acc':
@@ -346,7 +352,8 @@ def check_resets(rep, repo, E, solve, sreach, long_lived):
                 continue
             n += 1
             ok, why = covered(E, sreach, f, ev.node, ['self'] + objnames, attr)
-            rep.check(ok, 'C18.R2', f.where, 'accumulation into %s.%s (object of class %s outlives the solve) starts from a value re-created in this solve' % ('.'.join(['self'] + objnames), attr, owner),
+            rep.check(ok, 'C18.R2', f.where, '%s %s.%s (object of class %s outlives the solve) starts from a value re-created in this solve' % (
+                      'removal from / reordering of' if destr else 'accumulation into', '.'.join(['self'] + objnames), attr, owner),
                       got=why, want='<obj>.%s = <fresh value> dominating the accumulation' % attr,
                       construct='accumulation %s.%s without reset' % (owner, attr), loc=ev.loc)
     rep.count('accumulations_on_long_lived', n)
